@@ -25,7 +25,11 @@ Proof.
   intros H; injection H as <-; exact E.
 Qed.
 Lemma search_contains l key is_end r : search l key is_end = Some r -> holds is_end r key = true.
-Proof. unfold search; apply search_desc_contains. Qed.
+Proof.
+  unfold search. destruct (is_end && is_nil key) eqn:E; [|apply search_desc_contains].
+  apply andb_true_iff in E. destruct E as [-> _]. destruct (rev l) as [|x t]; [discriminate|].
+  destruct (r_contains_end x key) eqn:Ec; [|discriminate]. intros H; injection H as <-. exact Ec.
+Qed.
 Lemma search_desc_in items key is_end r : search_desc items key is_end = Some r -> In r items.
 Proof.
   induction items as [|x t IH]; cbn [search_desc]; [discriminate|].
@@ -35,7 +39,10 @@ Proof.
 Qed.
 Lemma search_in l key is_end r : search l key is_end = Some r -> In r l.
 Proof.
-  unfold search, le_items. intros H. apply search_desc_in in H. apply in_rev in H. apply filter_In in H. tauto.
+  unfold search, le_items. destruct (is_end && is_nil key).
+  - destruct (rev l) as [|x t] eqn:Er; [discriminate|]. destruct (r_contains_end x key); [|discriminate].
+    intros H; injection H as <-. apply in_rev. rewrite Er. left; reflexivity.
+  - intros H. apply search_desc_in in H. apply in_rev in H. apply filter_In in H. tauto.
 Qed.
 
 Lemma new_region_range d : r_start (new_region d) = d_start d /\ r_end (new_region d) = d_end d /\ r_id (new_region d) = d_id d.
@@ -85,32 +92,47 @@ Proof.
     + destruct H2 as [H2|H2]; [left; exact H2|right; apply ltb_leb; exact H2].
 Qed.
 
+(* loadLastRegion: the region it returns has an unbounded end *)
+Lemma load_last_end : forall fuel t start r t', load_last pd budget fuel t start = (Ok r, t') -> r_end r = [].
+Proof.
+  induction fuel as [|f IH]; intros t start r t'; cbn [load_last]; [discriminate|].
+  destruct (scan_loop pd budget (S f) t (ReqScan start [] 128) [(start, [])] 128 true) as [[regs|e] t1]; [|discriminate].
+  destruct (rev regs) as [|lastr x]; [discriminate|]. destruct (is_nil (r_end lastr)) eqn:E; [|apply IH].
+  intros H; injection H as <- _. apply is_nil_true. exact E.
+Qed.
+Lemma load_for_holds c fuel t key is_end r t' : load_for pd budget c fuel t key is_end = (Ok r, t') -> holds is_end r key = true.
+Proof.
+  unfold load_for. destruct (is_end && is_nil key) eqn:E.
+  - apply andb_true_iff in E. destruct E as [-> E]. apply is_nil_true in E. subst key. intros H. apply load_last_end in H.
+    unfold holds, r_contains_end, contains_by_end. cbn [is_nil]. rewrite H. reflexivity.
+  - intros H. eapply load_region_holds; [| |exact H]; [|discriminate]. intros -> Hk. subst key. discriminate E.
+Qed.
+(* LocateKey / LocateEndKey, the empty end key (the end of the key space) included *)
 Lemma find_region_by_key_holds fuel t c key is_end r c' t' :
-  (is_end = true -> key <> []) ->
   find_region_by_key pd budget fuel t c key is_end = (Ok r, c', t') -> holds is_end r key = true.
 Proof.
-  intros Hk. unfold find_region_by_key.
+  unfold find_region_by_key.
   assert (Hmiss : forall x,
-    match load_region pd budget fuel t key is_end false with
+    match load_for pd budget c fuel t key is_end with
     | (Err e, t1) => (Err e, c, t1)
     | (Ok lr, t1) =>
         let '(ok, c1) := insert_new c lr in
         if ok then (Ok (as_stored c lr), c1, t1)
-        else match load_region pd budget fuel t1 key is_end false with
+        else match load_for pd budget c1 fuel t1 key is_end with
              | (Err e, t2) => (Err e, c1, t2)
              | (Ok lr2, t2) => (Ok (as_stored c1 lr2), snd (insert_new c1 lr2), t2)
              end
     end = (Ok r, c', t') -> x = tt -> holds is_end r key = true).
-  { intros _ H _. destruct (load_region pd budget fuel t key is_end false) as [[lr|e] t1] eqn:E1; [|discriminate H].
+  { intros _ H _. destruct (load_for pd budget c fuel t key is_end) as [[lr|e] t1] eqn:E1; [|discriminate H].
     destruct (insert_new c lr) as [ok c1]. destruct ok.
-    - injection H as <- _ _. rewrite holds_as_stored. eapply load_region_holds; [| |exact E1]; [exact Hk|discriminate].
-    - destruct (load_region pd budget fuel t1 key is_end false) as [[lr2|e] t2] eqn:E2; [|discriminate H].
-      injection H as <- _ _. rewrite holds_as_stored. eapply load_region_holds; [| |exact E2]; [exact Hk|discriminate]. }
+    - injection H as <- _ _. rewrite holds_as_stored. eapply load_for_holds; exact E1.
+    - destruct (load_for pd budget c1 fuel t1 key is_end) as [[lr2|e] t2] eqn:E2; [|discriminate H].
+      injection H as <- _ _. rewrite holds_as_stored. eapply load_for_holds; exact E2. }
   destruct (search (c_sorted c) key is_end) as [x|] eqn:Es; [|intros H; exact (Hmiss tt H eq_refl)].
   destruct (r_expired x); [intros H; exact (Hmiss tt H eq_refl)|].
   destruct (flagged x).
-  - destruct (load_region pd budget fuel t key is_end false) as [[lr|e] t1] eqn:E1.
-    + intros H; injection H as <- _ _. rewrite holds_as_stored. eapply load_region_holds; [| |exact E1]; [exact Hk|discriminate].
+  - destruct (load_for pd budget c fuel t key is_end) as [[lr|e] t1] eqn:E1.
+    + intros H; injection H as <- _ _. rewrite holds_as_stored. eapply load_for_holds; exact E1.
     + intros H; injection H as <- _ _. eapply search_contains; exact Es.
   - intros H; injection H as <- _ _. eapply search_contains; exact Es.
 Qed.
@@ -175,7 +197,7 @@ Proof.
       intros H. apply IH in H.
       * destruct H as [H1 H2]. split; [|exact H2]. rewrite H1, map_app, <- app_assoc. reflexivity.
       * intros kr Hin. apply in_app_or in Hin. destruct Hin as [Hin|[<-|[]]]; [apply Hacc; exact Hin|]. cbn [fst snd].
-        apply (find_region_by_key_holds _ _ _ _ false _ _ _ ltac:(discriminate) Ef).
+        apply (find_region_by_key_holds _ _ _ _ false _ _ _ Ef).
 Qed.
 End PD.
 
